@@ -10,8 +10,8 @@ def coq_nat_list(l):
 
 
 def coq_str(s):
-    assert all(32 <= ord(c) < 127 and c != '"' for c in s), s
-    return '"%s"%%string' % s
+    assert all(32 <= ord(c) < 127 for c in s), s
+    return '"%s"%%string' % s.replace('"', '""')
 
 
 def coq_form(f):
@@ -75,6 +75,17 @@ def main():
         o = model_batch([['scc', g]])[0]
         lines.append('Example sc%d : compute_SCCs %s = [%s]. Proof. vm_compute. reflexivity. Qed.'
                      % (i, coq_graph(g), '; '.join(coq_nat_list(c) for c in o)))
+    # parser model: parse_string through the driver vs vm_compute
+    ptexts = ['p orb', 'or', 'not', 'A F G', 'A F G q', 'U U U', 'not X', '(p)or(q)-->~r', 'p | q | r and s',
+              'A(p U q) or E X "a b"', 'A (p or q) U r', 'A G (p --> F q)', 'p Until', '"x\\"y" & true', 'p -> q',
+              'A((p) R (q))', '((p and q and r))', 'X p U G q']
+    pcases = [(L, t) for t in ptexts for L in ('PL', 'CTLS', 'CTL', 'LTL')]
+    pout = model_batch([['parse', L, Q(t)] for L, t in pcases])
+    lines.append('From PMC Require Import Model.Parse.')
+    for i, ((L, t), o) in enumerate(zip(pcases, pout)):
+        val = '(Ok %s)' % coq_form(fparse(o[1])) if o[0] == 'ok' else 'ParseErr'
+        lines.append('Example ps%d : parse_string %s "%s"%%string = %s. Proof. vm_compute. reflexivity. Qed.'
+                     % (i, L, t.replace('"', '""'), val))
     d = os.path.join(VERIF, 'build')
     os.makedirs(d, exist_ok=True)
     p = os.path.join(d, 'SelfTest.v')
@@ -84,7 +95,7 @@ def main():
         print('SELFTEST FAILED: extracted driver and vm_compute disagree (or SelfTest.v does not compile)')
         print((r.stdout + r.stderr)[-2000:])
         sys.exit(1)
-    print('selftest ok: %d cases agree between driver and vm_compute' % (len(terms) + 15))
+    print('selftest ok: %d cases agree between driver and vm_compute' % (len(terms) + 15 + len(pcases)))
 
 
 if __name__ == '__main__':
